@@ -144,7 +144,7 @@ func (r *Run) randMod() [][]byte {
 	x, y := []byte{}, []byte{}
 	switch k {
 	case 1:
-		x = r.Bytes(4)
+		x = r.edge(4)
 	case 2, 3, 4, 5, 15:
 		x = r.randIP()
 	case 6, 12:
@@ -265,7 +265,7 @@ func genC15(r *Run) {
 		}
 		if bid == 0 || bid >= 4 {
 			// builders that draw a random transaction id: pin it with a leading user modifier
-			mods = append([][]byte{{1}, r.Bytes(4), {}}, mods...)
+			mods = append([][]byte{{1}, r.edge(4), {}}, mods...)
 		}
 		full := append(append([][]byte{}, a...), mods...)
 		r.Add(eV4Build, full...)
